@@ -248,14 +248,35 @@ def evaluate(rule, prog, scope, ledger_name, floor):
         # The sites differ from the ledger. Before reporting, see whether the *rules* differ: a diagnostic that moved into (or out of)
         # a helper, or whose function was renamed, is the same rule as long as the conditions that lead to it - its own plus those of the
         # calls that reach it - are the same. Compare the multisets of (diagnostic, effective conditions).
-        m_old = _effective(_old_sites(led))
-        m_now = _effective({k: {'guards': v['guards'], 'fn': v['fn'], 'kind': v['meta'].get('kind'), 'label': v['meta'].get('label'), 'callee': v['meta'].get('callee')} for k, v in now.items()})
-        if m_old == m_now:
+        e_old = _effective(_old_sites(led))
+        e_now = _effective({k: {'guards': v['guards'], 'fn': v['fn'], 'kind': v['meta'].get('kind'), 'label': v['meta'].get('label'), 'callee': v['meta'].get('callee')} for k, v in now.items()})
+        from collections import Counter
+        c_old, c_now = Counter(x[:2] for x in e_old), Counter(x[:2] for x in e_now)
+        if c_old == c_now:
             for key, d in oks:
                 rule.ok(key, d)
             rule.ok('moved-sites', 'the sites differ from the ledger but every diagnostic is produced under the same effective conditions (moved into / out of a helper, or renamed): %d site difference(s) reconciled' % len(findings))
             rule.floor(floor, 'rule sites')
             return
+        # partial reconciliation: a leaf site (diagnostic or predicate return) all of whose effective entries have a counterpart on the other
+        # side is the same rule in a new place; only the unmatched ones are reported. Call sites are reported unless everything matched.
+        bad_old = {k for lab, gs, k in e_old if c_old[(lab, gs)] > c_now[(lab, gs)]}
+        bad_now = {k for lab, gs, k in e_now if c_now[(lab, gs)] > c_old[(lab, gs)]}
+        leaf_old = {k for _, _, k in e_old}
+        leaf_now = {k for _, _, k in e_now}
+        kept = []
+        for k, sp, txt in findings:
+            what, key = k.split(':', 1)
+            if what == 'rule-site-removed' and key in leaf_old and key not in bad_old:
+                continue
+            if what == 'unrecorded-rule-site' and key in leaf_now and key not in bad_now:
+                continue
+            if what == 'rule-precondition-changed' and key in leaf_old and key in leaf_now and key not in bad_old and key not in bad_now:
+                continue
+            kept.append((k, sp, txt))
+        if len(kept) < len(findings):
+            rule.ok('moved-sites', '%d site difference(s) reconciled: same diagnostic under the same effective conditions elsewhere' % (len(findings) - len(kept)))
+        findings = kept
     for key, d in oks:
         rule.ok(key, d)
     for k, sp, txt in findings:
@@ -279,6 +300,55 @@ def _old_sites(led):
     return out
 
 
+def _balanced_end(t, i):
+    """index just after the parenthesis group opening at t[i] == '('"""
+    depth = 0
+    for j in range(i, len(t)):
+        if t[j] == '(':
+            depth += 1
+        elif t[j] == ')':
+            depth -= 1
+            if depth == 0:
+                return j + 1
+    return len(t)
+
+
+def _norm_elem(g, fn):
+    """Spelling of a condition that does not depend on whether the code iterates with a `for` loop or hands a closure to an iterator
+    adapter: the element of the iteration is `elem` in both (the loop variable `next(into_iter(..)) as Some.0`, the closure's parameter),
+    and a projection of a tuple built on the spot is the component itself."""
+    t = g
+    while True:
+        i = t.find('next(into_iter(')
+        if i < 0:
+            break
+        j = _balanced_end(t, i + 4)
+        if t.startswith(' as Some.0', j):
+            t = t[:i] + 'elem' + t[j + len(' as Some.0'):]
+        else:
+            t = t[:i] + 'next_(' + t[i + 5:]
+    t = t.replace('next_(', 'next(')
+    if '{closure#' in fn.rsplit('::', 1)[-1]:
+        t = re.sub(r'\barg2\b', 'elem', t)
+    # tuple(a,b).k -> component
+    while True:
+        m = re.search(r'tuple\(', t)
+        if not m:
+            break
+        j = _balanced_end(t, m.end() - 1)
+        mm = re.match(r'\.(\d)\b', t[j:])
+        inner = _split_args(t[m.end():j - 1])
+        if mm and int(mm.group(1)) < len(inner):
+            t = t[:m.start()] + inner[int(mm.group(1))] + t[j + 2:]
+        else:
+            t = t[:m.start()] + 'tuple_(' + t[m.end():]
+    return t.replace('tuple_(', 'tuple(')
+
+
+# `for` loop bookkeeping (the iterator yielded another element): a closure handed to for_each has no such condition
+_LOOP_HAS_NEXT = re.compile(r'^next\(into_iter\(.*\)\) is Some$')
+
+
 def _effective(sites):
     """multiset (as a sorted list) of (label, effective guards) of the leaf sites: diagnostics and predicate returns, with the conditions of
     the in-scope calls that reach their function unioned in (all caller chains, depth <= 3)."""
@@ -288,17 +358,20 @@ def _effective(sites):
             callers.setdefault(v['callee'], []).append(v)
 
     def chains(fn, depth, seen):
+        # a closure is reached the way its enclosing function is
+        fn = re.sub(r'(::\{closure#\d+\})+$', '', fn)
         cs = [c for c in callers.get(fn, []) if c['fn'] not in seen]
         if not cs or depth == 0:
             return [frozenset()]
         out = []
         for c in cs:
             for up in chains(c['fn'], depth - 1, seen | {fn}):
-                out.append(frozenset(c['guards']) | up)
+                out.append(frozenset(canon(_norm_elem(g, c['fn'])) for g in c['guards'] if not _LOOP_HAS_NEXT.match(g)) | up)
         return out
     ms = []
     for k, v in sites.items():
         if v.get('kind') in ('E', 'R'):
             for up in chains(v['fn'], 7, frozenset()):
-                ms.append((v['label'], tuple(sorted(frozenset(v['guards']) | up))))
+                own = frozenset(canon(_norm_elem(g, v['fn'])) for g in v['guards'] if not _LOOP_HAS_NEXT.match(g))
+                ms.append((_norm_elem(v['label'], v['fn']), tuple(sorted(own | up)), k))
     return sorted(ms)
